@@ -61,6 +61,8 @@ Record rgraph_ok (w : world) : Prop := {
   rg_table0 : exists t0 n0, w_tables w !! 0 = Some t0 /\ w_nodes w !! t_node t0 = Some n0 /\ n_mask n0 = 0%N;
   rg_capinc : 0 < w_capinc w /\ 0 < w_relcapinc w;
   rg_reglen : length (w_reg w) <= w_tb w;
+  rg_active : forall nid nd tid, w_nodes w !! nid = Some nd -> tid ∈ n_tables nd -> n_active nd = true;
+  rg_tnodup : forall nid nd, w_nodes w !! nid = Some nd -> NoDup (n_tables nd);
 }.
 
 (** ** Extension that may re-activate an empty, retired table *)
@@ -191,6 +193,8 @@ Proof.
         rewrite lookup_app_l; [done|]. by apply lookup_lt_Some in Hn0.
       * apply G.
       * apply G.
+      * intros nid nd tid H Hin. rewrite Hlk in H. destruct (decide _); [injection H as <-; simpl in Hin; by apply elem_of_nil in Hin|by apply (rg_active _ G nid nd tid)].
+      * intros nid nd H. rewrite Hlk in H. destruct (decide _); [injection H as <-; apply NoDup_nil_2|by apply (rg_tnodup _ G nid nd)].
     + exists nn. simpl. rewrite Hlk. by destruct (decide _).
 Qed.
 
@@ -370,6 +374,8 @@ Proof.
       * exists n0. rewrite Hnl. by destruct (decide (t_node t0 = nid)).
     + apply G.
     + apply G.
+    + intros j n tid0 Hn Hin. rewrite Hnl in Hn. destruct (decide (j = nid)) as [->|]; [by injection Hn as <-|by apply (rg_active _ G j n tid0)].
+    + intros j n Hn. rewrite Hnl in Hn. destruct (decide (j = nid)) as [->|]; [injection Hn as <-; simpl; rewrite Hnt; apply NoDup_singleton|by apply (rg_tnodup _ G j n)].
   - exists t, nd'. rewrite Htl, Hnl. destruct (decide (tid = tid)); [|done]. destruct (decide (nid = nid)); [|done].
     repeat split; try done. apply lookup_ge_None. unfold tid. lia.
 Qed.
@@ -443,6 +449,11 @@ Proof.
       * exists n0. rewrite Hnl. by destruct (decide (t_node t0 = nid)).
     + apply G.
     + apply G.
+    + intros j n tid0 Hn Hin. rewrite Hnl in Hn. destruct (decide (j = nid)) as [->|]; [by injection Hn as <-|by apply (rg_active _ G j n tid0)].
+    + intros j n Hn. rewrite Hnl in Hn. destruct (decide (j = nid)) as [->|]; [|by apply (rg_tnodup _ G j n)].
+      injection Hn as <-. simpl. apply NoDup_app. split; [by apply (rg_tnodup _ G nid nd)|]. split; [|apply NoDup_singleton].
+      intros x Hx Hx2. apply elem_of_list_singleton in Hx2 as ->.
+      destruct (rg_ntables _ G nid nd tid Hnd Hx) as (t0 & Ht0 & _). by apply Hold in Ht0.
   - exists t, nd'. rewrite Htl, Hnl. destruct (decide (tid = tid)); [|done]. destruct (decide (nid = nid)); [|done].
     repeat split; done.
 Qed.
@@ -540,6 +551,8 @@ Proof.
       * exists n1. rewrite Hnl. by destruct (decide (t_node t1 = nid)).
     + apply G.
     + apply G.
+    + intros j n tid0 Hn Hin. rewrite Hnl in Hn. destruct (decide (j = nid)) as [->|]; [injection Hn as <-; by apply (rg_active _ G nid nd tid0)|by apply (rg_active _ G j n tid0)].
+    + intros j n Hn. rewrite Hnl in Hn. destruct (decide (j = nid)) as [->|]; [injection Hn as <-; by apply (rg_tnodup _ G nid nd)|by apply (rg_tnodup _ G j n)].
   - exists t, nd'. rewrite Htl, Hnl. destruct (decide (tid = tid)); [|done]. destruct (decide (nid = nid)); [|done].
     repeat split; try done.
 Qed.
@@ -727,6 +740,8 @@ Proof.
     + by destruct (decide (t_node t1 = nid)).
   - apply G.
   - apply G.
+  - intros j n tid0 Hn Hin. rewrite Hnl in Hn. destruct (decide (j = nid)) as [->|]; [injection Hn as <-; by apply (rg_active _ G nid nd tid0)|by apply (rg_active _ G j n tid0)].
+  - intros j n Hn. rewrite Hnl in Hn. destruct (decide (j = nid)) as [->|]; [injection Hn as <-; by apply (rg_tnodup _ G nid nd)|by apply (rg_tnodup _ G j n)].
 Qed.
 
 Lemma cleanup_table_rok w tid : rgraph_ok w -> rgraph_ok (cleanup_table w tid).
